@@ -63,6 +63,16 @@ for m, msg in (("to_receiver", "is not a receiver"), ("to_sender", "is not a sen
                    "Not repaired: to_sender/to_receiver are infallible in every backend's API (macOS/Windows cannot be compiled here)." % msg,
                    "findings_demo: `cargo run --features inproc -- kind` -> PANICKED; without the feature -> Ok"))
 
+# ---- C15
+for role in ("single-packet", "fragmented"):
+    F.append(fixed("C15", "FD-BOUND", "FD-BOUND:platform::unix::OsIpcSender::send:unbounded-descriptor-count:" + role, "f0938f2",
+                   "send accepted any number of descriptors (%s path): 65 senders in one message were accepted and the receiver panicked on index 64" % role))
+# ---- C18
+F.append(fixed("C18", "NULL-GUARD", "NULL-GUARD:<platform::unix::OsIpcSharedMemory as std::ops::Deref>::deref:from_raw_parts:nullable-pointer-unguarded", "da4c385",
+               "OsIpcSharedMemory::from_bytes(&[]) constructed a region whose first deref aborted (null pointer into slice::from_raw_parts)"))
+F.append(fixed("C18", "NULL-GUARD", "NULL-GUARD:platform::unix::OsIpcSharedMemory::from_byte:from_raw_parts_mut:nullable-pointer-unguarded", "da4c385",
+               "OsIpcSharedMemory::from_byte(7, 0) aborted in the constructor (null pointer into slice::from_raw_parts_mut)"))
+
 json.dump({"comment": "Committed by hand; never written by a check. 'open' entries turn exactly that report into a KNOWN-FINDING line; 'fixed' entries suppress nothing.",
            "findings": F}, open(os.path.join(HERE, "known_findings.json"), "w"), indent=1)
 print(len(F), "entries;", sum(1 for f in F if f["status"] == "open"), "open")
